@@ -26,8 +26,8 @@ import (
 func init() { core.Register("C06", Run) }
 
 const (
-	validity = 3 * time.Second
-	tickWait = 4200 * time.Millisecond
+	validity = 5 * time.Second
+	tickWait = 6500 * time.Millisecond
 )
 
 var (
@@ -232,11 +232,11 @@ func cfgText(hosts string, maxTick, maxCerts, maxOps int, requesters string, con
 // Run is the C06 check.
 func Run(c *core.Ctx) {
 	c.Describe(
-		"TLC explores (a) the fine-grained certificate cache with 2-3 concurrent requesters stepping through lookup / verify / issue / store interleaved with time ticks, and (b) the atomic view: every sequence of <= MaxOps requests over hosts {none, dns1, dns2, ip} and ticks past the validity window. Every atomic behaviour is replayed as real TLS handshakes (client over net.Pipe) against a mitm.Config with 3 s validity, a tick being a 4.2 s sleep; the host is spelled with rotating variants (SNI, fallback authority with/without port, mixed case, IPv4, IPv6 bracketed with port or bare, transparent listener); the presented chain is verified with x509 for the requested host at handshake time, organization and serial identity (reuse vs fresh) are compared with the specification's successor states. Concurrent handshakes (6 goroutines x 3 handshakes per phase, two phases separated by a tick) are validated for linearizability by TLC. Non-trivial = behaviours with at least two requests for the same host or a tick.",
+		"TLC explores (a) the fine-grained certificate cache with 2-3 concurrent requesters stepping through lookup / verify / issue / store interleaved with time ticks, and (b) the atomic view: every sequence of <= MaxOps requests over hosts {none, dns1, dns2, ip} and ticks past the validity window. Every atomic behaviour is replayed as real TLS handshakes (client over net.Pipe) against a mitm.Config with 5 s validity, a tick being a 6.5 s sleep; the host is spelled with rotating variants (SNI, fallback authority with/without port, mixed case, IPv4, IPv6 bracketed with port or bare, transparent listener); the presented chain is verified with x509 for the requested host at handshake time, organization and serial identity (reuse vs fresh) are compared with the specification's successor states. Concurrent handshakes (6 goroutines x 3 handshakes per phase, two phases separated by a tick) are validated for linearizability by TLC. Non-trivial = behaviours with at least two requests for the same host or a tick.",
 		"CertCache.tla invariants ReturnedCertMatchesRequester, CacheHoldsOwnName, ValidWhenChosen and action properties ValidAtReturn, RefuseWhenNoName checked by TLC; binding: behaviour replay with real handshakes (model->code) and linearizability witness search over concurrent handshakes (code->model).",
 		true,
 		"reuse is not demanded by the property: a fresh certificate is always an allowed outcome; a reused one must be the one cached for that host and still valid",
-		"time is real: validity 3 s, tick 4.2 s; certificate validity is judged at the instant the client handshake returned")
+		"time is real: validity 5 s, tick 6.5 s; certificate validity is judged at the instant the client handshake returned")
 	if _, _, err := authority(); err != nil {
 		c.Inconclusive("cannot create CA: %v", err)
 		return
@@ -257,7 +257,7 @@ func Run(c *core.Ctx) {
 	c.Extra("concurrent_model_states", r1.Distinct)
 	// (b) atomic behaviours replayed
 	maxOps := c.Pick(4, 5)
-	os.WriteFile(filepath.Join(c.Work, "cc_seq.cfg"), []byte(cfgText(`{"", "d1", "d2", "ip"}`, c.Pick(1, 2), 4, maxOps, "{}", false)), 0o644)
+	os.WriteFile(filepath.Join(c.Work, "cc_seq.cfg"), []byte(cfgText(`{"", "d1", "d2", "ip"}`, c.Pick(1, 2), maxOps, maxOps, "{}", false)), 0o644)
 	dot := filepath.Join(c.Work, "cc.dot")
 	r2, err := core.RunTLC(c.Work, core.TLCOpts{Module: "CertCache", Cfg: "cc_seq.cfg", Workers: 8, Timeout: 20 * time.Minute,
 		Args: []string{"-dump", "dot,actionlabels", dot}})
